@@ -283,7 +283,7 @@ class LoopMixin:
         s.old = self.entry_state
         s.pc = st.pc
         for clause in lspec.invariant:
-            st.assume_raw(self.spec_bool(clause, s))
+            st.assume_raw(self.spec_assume(clause, s))
 
     def variant_value(self, st: State, lspec, entry_state):
         if lspec is None or lspec.decreases is None:
